@@ -71,7 +71,7 @@ def config_text(p, source_dir="src"):
                             extensions=None if ex == "omitted" else {"rs": ["rs"], "rs+x": ["rs", "x"], "x": ["x"]}[ex])
 
 
-def run_point(built, p):
+def run_point(built, p, cfgform="absolute"):
     uc, st, ex, lk, mode, tree = p[:6]
     LOCKVAL = p[6] if len(p) > 6 else 1000
     exp = expected(p)
@@ -84,7 +84,17 @@ def run_point(built, p):
         if LOCK_TEXT[lk] is not None:
             open(lockp, "w").write(core.lock_text(LOCKVAL) if lk == "valid_ahead" else LOCK_TEXT[lk])
         before = core.snapshot(box.root)
-        r = core.run_breadlog(built, box, cfg, check=(mode == "check"), shim=True)
+        # how the configuration file is named on the command line must not matter
+        cwd, carg = None, None
+        if cfgform == "bare":
+            cwd, carg = box.proj, "Breadlog.yaml"
+        elif cfgform == "dotslash":
+            cwd, carg = box.proj, "./Breadlog.yaml"
+        elif cfgform == "from_parent":
+            cwd, carg = box.root, "proj/Breadlog.yaml"
+        elif cfgform == "from_subdir":
+            cwd, carg = os.path.join(box.proj, "src"), "../Breadlog.yaml"
+        r = core.run_breadlog(built, box, cfg, check=(mode == "check"), shim=True, cwd=cwd, cfg_arg=carg)
         after = core.snapshot(box.root)
         diff = core.snap_diff(before, after, meta=False)
         lock_after = core.read_lock(lockp)
@@ -155,21 +165,24 @@ def run_point(built, p):
 
 
 def work(job):
-    built, p = job
+    built, p = job[:2]
+    cfgform = job[2] if len(job) > 2 else "absolute"
     res = {"evaluations": 1, "nontrivial": [], "violations": [], "samples": [], "inconclusive": {}, "counters": {}}
-    v, exp, r, obs = run_point(built, p)
+    v, exp, r, obs = run_point(built, p, cfgform)
     if v is None:
         res["inconclusive"]["run-crashed (C17's business)"] = 1
         return res
     if v == "c03":
         res["inconclusive"]["prerequisite C03 failed (decomposition)"] = 1
         return res
-    res["nontrivial"].append("|".join(str(x) for x in p))
+    res["nontrivial"].append("|".join(str(x) for x in p) + "|" + cfgform)
+    if cfgform != "absolute":
+        res["counters"]["invocation_form_points"] = 1
     res["counters"]["points"] = 1
     for clause, detail in v:
         uc, st, ex, lk, mode, tree = p[:6]
-        res["violations"].append({"signature": "C16.%s|use_cache=%s|structured=%s|extensions=%s|lock=%s|%s|%s" % (clause, uc, st, ex, lk, mode, tree),
-                                  "detail": dict(detail, point=p, exit=r.ended()), "case": {"point": list(p)}})
+        res["violations"].append({"signature": "C16.%s|use_cache=%s|structured=%s|extensions=%s|lock=%s|%s|%s%s" % (clause, uc, st, ex, lk, mode, tree, "" if cfgform == "absolute" else "|config-arg=" + cfgform),
+                                  "detail": dict(detail, point=p, exit=r.ended(), config_arg=cfgform), "case": {"point": list(p), "cfgform": cfgform}})
     if tuple(p[:6]) in (("omitted", "omitted", "omitted", "absent", "edit", "missing"), ("false", "true", "rs+x", "corrupt", "edit", "missing")):
         res["samples"].append({"point": dict(zip(["use_cache", "structured", "extensions", "lock", "mode", "tree"], p)),
                                "expected": {k: exp[k] for k in ("cache", "structured", "exts", "scope", "nmiss", "start")},
@@ -240,7 +253,13 @@ def main(tier):
     if tier == "thorough":
         # the same product with other cached values: exactly max+1, a large one, one close to the top of the range
         points = points + [p + (lv,) for p in points for lv in (4, 123456, 4294967000) if p[3] == "valid_ahead"]
-    for res in frame.pmap(work, [(built, p) for p in points], chunksize=8):
+    jobs = [(built, p) for p in points]
+    # the same expectations when the configuration file is named relatively (bare name, ./name, from the parent, from a subdirectory)
+    for p in points:
+        if p[2] in ("omitted", "rs+x") and p[3] in ("absent", "valid_ahead", "corrupt") and p[5] == "missing" and len(p) == 6:
+            for form in ("bare", "dotslash", "from_parent", "from_subdir"):
+                jobs.append((built, p, form))
+    for res in frame.pmap(work, jobs, chunksize=8):
         ck.absorb(res)
     for res in frame.pmap(error_work, [(built, k, m, wl) for k in ERRORS for m in MODE for wl in (False, True)]):
         ck.absorb(res)
@@ -261,7 +280,7 @@ def replay_witness(w, ck=None, built=None):
     core.build_shim()
     c = w["case"] if "case" in w else w["first"]["case"]
     if "point" in c:
-        v, _, _, _ = run_point(built, tuple(c["point"]))
+        v, _, _, _ = run_point(built, tuple(c["point"]), c.get("cfgform", "absolute"))
         return bool(v) and v != "c03"
     r = error_work((built, c["error"], c["mode"]))
     return bool(r["violations"])
